@@ -28,6 +28,8 @@
 EXTENDS Naturals, Sequences, FiniteSets, TLC
 
 CONSTANTS MaxReconnects, MaxCuts, MaxProbes, MaxPends, MaxRaces, MaxTicks,
+          MaxFnfs,    \* fire-and-forget calls (their awaitable is resolved when the frame has been written - or can no longer be)
+          MaxBlocks,  \* times the transport stops accepting writes (back-pressure: frames stay queued / half-written)
           Firsts,     \* the calls a race starts with: subset of {"reconnect", "close"}
           Js          \* numbers of loop iterations after which the racing call is made
 
@@ -41,6 +43,11 @@ Init == k = [gen |-> 1, up |-> TRUE, appClosed |-> FALSE, topen |-> TRUE,
              hung |-> 0,          \* requests still waiting although their connection is gone
              pending |-> 0,       \* requests waiting for a response the peer has not given yet
              pends |-> 0,
+             blocked |-> FALSE,   \* the transport does not accept writes at the moment
+             unsent |-> 0,        \* fire-and-forget frames queued (or half-written) behind the blocked transport
+             fnfDone |-> 0,       \* fire-and-forget awaitables settled (written, or failed with the connection)
+             fnfHung |-> 0,       \* fire-and-forget calls made on a dead, not yet replaced connection
+             fnfs |-> 0, blocks |-> 0,
              reconnects |-> 0, cuts |-> 0, probes |-> 0, races |-> 0, ticks |-> 0]
 
 ProbeF(s) == IF s.up THEN [s EXCEPT !.answered = @ + 1, !.probes = @ + 1]
@@ -52,42 +59,54 @@ PendF(s) == IF s.up THEN [s EXCEPT !.pending = @ + 1, !.pends = @ + 1]
 
 (* orderly EOF from the server: the transport is closed at once.  A transport ERROR (here: while writing) ends the connection
    as well, but AS IMPLEMENTED the client closes that transport only at the next reconnect() / close() *)
+FnfF(s) == IF s.up /\ ~s.blocked THEN [s EXCEPT !.fnfDone = @ + 1, !.fnfs = @ + 1]
+           ELSE IF s.up THEN [s EXCEPT !.unsent = @ + 1, !.fnfs = @ + 1]
+           ELSE [s EXCEPT !.fnfHung = @ + 1, !.fnfs = @ + 1]
+
 CutF(s) == IF s.up THEN [s EXCEPT !.up = FALSE, !.topen = FALSE, !.closeCbs = @ + 1, !.tclosed = @ + 1, !.cuts = @ + 1,
-                                  !.answered = @ + s.pending, !.pending = 0]
+                                  !.answered = @ + s.pending, !.pending = 0,
+                                  !.fnfDone = @ + s.unsent, !.unsent = 0, !.blocked = FALSE]
            ELSE [s EXCEPT !.cuts = @ + 1]
 CutErrF(s) == IF s.up THEN [s EXCEPT !.up = FALSE, !.closeCbs = @ + 1, !.cuts = @ + 1,
-                                     !.answered = @ + s.pending, !.pending = 0]
+                                     !.answered = @ + s.pending, !.pending = 0,
+                                     !.fnfDone = @ + s.unsent, !.unsent = 0, !.blocked = FALSE]
               ELSE [s EXCEPT !.cuts = @ + 1]
 
 ReconnF(s) == IF s.appClosed THEN [s EXCEPT !.reconnects = @ + 1]
               ELSE [s EXCEPT !.gen = @ + 1, !.up = TRUE, !.topen = TRUE,
                              !.closeCbs = IF s.up THEN @ + 1 ELSE @,
                              !.tclosed = IF s.topen THEN @ + 1 ELSE @,
-                             !.answered = @ + s.hung + s.pending, !.hung = 0, !.pending = 0, !.reconnects = @ + 1]
+                             !.answered = @ + s.hung + s.pending, !.hung = 0, !.pending = 0, !.reconnects = @ + 1,
+                             !.fnfDone = @ + s.unsent + s.fnfHung, !.unsent = 0, !.fnfHung = 0, !.blocked = FALSE]
 
 CloseF(s) == IF s.appClosed THEN s
              ELSE [s EXCEPT !.appClosed = TRUE, !.up = FALSE, !.topen = FALSE,
                             !.closeCbs = IF s.up THEN @ + 1 ELSE @,
                             !.tclosed = IF s.topen THEN @ + 1 ELSE @,
-                            !.answered = @ + s.hung + s.pending, !.hung = 0, !.pending = 0]
+                            !.answered = @ + s.hung + s.pending, !.hung = 0, !.pending = 0,
+                            !.fnfDone = @ + s.unsent + s.fnfHung, !.unsent = 0, !.fnfHung = 0, !.blocked = FALSE]
 
-Probe == k.probes < MaxProbes /\ k' = ProbeF(k)
-Pend == k.pends < MaxPends /\ k' = PendF(k)
+Probe == k.probes < MaxProbes /\ ~k.blocked /\ k' = ProbeF(k)
+Pend == k.pends < MaxPends /\ ~k.blocked /\ k' = PendF(k)
+Fnf == k.fnfs < MaxFnfs /\ k' = FnfF(k)
+Block == k.blocks < MaxBlocks /\ k.up /\ ~k.blocked /\ k' = [k EXCEPT !.blocked = TRUE, !.blocks = @ + 1]
+Unblock == k.blocked /\ k' = [k EXCEPT !.blocked = FALSE, !.fnfDone = @ + k.unsent, !.unsent = 0]
 Cut == k.cuts < MaxCuts /\ k.up /\ k' = CutF(k)
 CutErr == k.cuts < MaxCuts /\ k.up /\ k' = CutErrF(k)
 Reconnect == k.reconnects < MaxReconnects /\ k' = ReconnF(k)
 Close == ~k.appClosed /\ k' = CloseF(k)
 Tick == k.ticks < MaxTicks /\ k' = [k EXCEPT !.ticks = @ + 1]        \* a keep-alive period passes
 
-F(a, s) == CASE a = "probe" -> ProbeF(s) [] a = "pend" -> PendF(s) [] a = "cut" -> CutF(s) [] a = "cuterr" -> CutErrF(s) [] a = "close" -> CloseF(s)
+F(a, s) == CASE a = "fnf" -> FnfF(s) [] a = "probe" -> ProbeF(s) [] a = "pend" -> PendF(s) [] a = "cut" -> CutF(s) [] a = "cuterr" -> CutErrF(s) [] a = "close" -> CloseF(s)
              [] a = "reconnect" -> ReconnF(s)
 
 Race(f, a, j) ==
     /\ k.races < MaxRaces /\ ~k.appClosed /\ (f # a \/ f = "reconnect")
     /\ (f = "reconnect" \/ a = "reconnect" => k.reconnects < MaxReconnects)
     /\ (f = "reconnect" /\ a = "reconnect" => k.reconnects + 1 < MaxReconnects)
-    /\ (a = "probe" => k.probes < MaxProbes)
-    /\ (a = "pend" => k.pends < MaxPends)
+    /\ (a = "probe" => k.probes < MaxProbes /\ ~k.blocked)
+    /\ (a = "pend" => k.pends < MaxPends /\ ~k.blocked)
+    /\ (a = "fnf" => k.fnfs < MaxFnfs)
     /\ (a \in {"cut", "cuterr"} => k.cuts < MaxCuts /\ k.up)
     /\ LET r == [k EXCEPT !.races = @ + 1]
            first == F(f, F(a, r))                   \* the racing call took effect before f did
@@ -95,8 +114,8 @@ Race(f, a, j) ==
            absorbed == [ReconnF(r) EXCEPT !.reconnects = @ + 1]      \* a second reconnect() absorbed by the one under way
        IN k' \in (IF f = "reconnect" /\ a = "reconnect" THEN {second, absorbed} ELSE {first, second})
 
-Next == Probe \/ Pend \/ Cut \/ CutErr \/ Reconnect \/ Close \/ Tick
-        \/ \E f \in Firsts, a \in {"probe", "pend", "cut", "cuterr", "close", "reconnect"}, j \in Js : Race(f, a, j)
+Next == Probe \/ Pend \/ Cut \/ CutErr \/ Reconnect \/ Close \/ Tick \/ Fnf \/ Block \/ Unblock
+        \/ \E f \in Firsts, a \in {"probe", "pend", "cut", "cuterr", "close", "reconnect", "fnf"}, j \in Js : Race(f, a, j)
 Spec == Init /\ [][Next]_vars
 
 ----------------------------------------------------------------------------
@@ -112,6 +131,11 @@ WaitsOnlyOnDeadConnection == k.hung > 0 => ~k.up
 Accounted == k.answered + k.hung + k.pending = k.probes + k.pends
 (* C11 / C17: whatever was pending when its connection ended has been failed *)
 NothingPendingOnDeadConnection == ~k.up => k.pending = 0
+(* C11: the awaitable of a fire-and-forget is settled when its frame has been written or can no longer be: nothing stays unsent on a
+   connection that has ended (AS IMPLEMENTED one made on a dead, not yet replaced connection waits for the next reconnect / close) *)
+FnfAccounted == k.fnfDone + k.unsent + k.fnfHung = k.fnfs
+NothingUnsentOnDeadConnection == ~k.up => k.unsent = 0 /\ ~k.blocked
+FnfWaitsOnlyOnDeadConnection == (k.fnfHung > 0 => ~k.up) /\ (k.unsent > 0 => k.blocked)
 (* C11: a closed client stays closed *)
 ClosedStaysClosed == k.appClosed => ~k.up
 TypeOK == k.gen >= 1
